@@ -468,3 +468,24 @@ add("O2", "break", CORE, "GroupBy.cumsum", "return self._apply_rolling_or_cumula
 add("O2", "break", NB, "_apply_rolling", "    return result", "    return values[0] if window == 1 and operation in ('min', 'max') else result", name="O2 rolling returns the (viewed) input for window 1", expect_func="*")
 add("O2", "break", CORE, "GroupBy.count_ikey", "            return numba_funcs.group_size(self.group_ikey, self.ngroups, mask=mask)", "            return self._chunk_offsets if mask is None else numba_funcs.group_size(self.group_ikey, self.ngroups, mask=mask)", name="O2 a public method hands out a cached array", expect_func="*")
 add("O1", "break", CORE, "GroupBy._apply_gb_reduction", "                    observed = self.ikey_count > 0\n", "                    observed = self.ikey_count\n                    observed[observed > 1] = 1\n", name="O1 store into the cached key counts", expect_func="*")
+
+# --------------------------------------------------------------------------------------------- M6 K4b P12 P7b E3(converse)
+FFC = "GroupBy._find_first_chunk_in_slice"
+add("M6", "break", CORE, FFC, "        if mask.start is None:\n            start = 0\n        elif mask.start < 0:\n            start = len(self) + mask.start\n        else:\n            start = mask.start\n", "        start = mask.start or 0\n", name="M6 negative start not normalised")
+add("M6", "break", CORE, FFC, "        if mask.start is None:\n            start = 0\n        elif mask.start < 0:", "        if mask.start < 0:", name="M6 open start not handled")
+add("M6", "break", CORE, FFC, "            if cum_length > start:", "            if cum_length >= start:", name="M6 boundary start lands in the previous chunk")
+add("M6", "keep", CORE, FFC, "        if mask.start is None:\n            start = 0\n        elif mask.start < 0:\n            start = len(self) + mask.start\n        else:\n            start = mask.start\n", "        start = mask.start or 0\n        if start < 0:\n            start += len(self)\n", name="M6 or-0 idiom with in-place normalisation")
+add("M6", "keep", CORE, FFC, "        if mask.start is None:\n            start = 0\n        elif mask.start < 0:\n            start = len(self) + mask.start\n        else:\n            start = mask.start\n", "        start = mask.indices(len(self))[0]\n", name="M6 slice.indices")
+add("K4b", "break", FACT, "_combine_factorizations", "combined_codes = np.zeros(len(codes), dtype='int64')", "combined_codes = np.zeros(len(codes), dtype=codes.dtype)", name="K4b combined codes inherit the per-key code dtype")
+add("K4b", "break", FACT, "_combine_factorizations", "combined_codes = np.zeros(len(codes), dtype='int64')", "combined_codes = np.zeros(len(codes), dtype='int16')", name="K4b combined codes int16")
+add("K4b", "break", FACT, "factorize_2d", "code_tracker = np.full(cartesian_product_size, -1, dtype='int32')", "code_tracker = np.full(cartesian_product_size, -1, dtype='int16')", name="K4b code tracker int16")
+add("K4b", "keep", FACT, "factorize_2d", "code_tracker = np.full(cartesian_product_size, -1, dtype='int32')", "code_tracker = np.full(cartesian_product_size, -1, dtype=np.int64)", name="K4b code tracker int64")
+add("P12", "break", CORE, "GroupBy._convert_arr_to_polars_series", "            if ints.min() == np.iinfo(np.int64).min:\n                arr = arr\n            else:\n                arr = ints\n", "            arr = ints\n", name="P12 integer view always handed to polars")
+add("P12", "break", CORE, "GroupBy._convert_arr_to_polars_series", "if ints.min() == np.iinfo(np.int64).min:", "if ints.min() != np.iinfo(np.int64).min:", name="P12 sentinel test inverted")
+add("P12", "keep", CORE, "GroupBy._convert_arr_to_polars_series", "            if ints.min() == np.iinfo(np.int64).min:\n                arr = arr\n            else:\n                arr = ints\n", "            if ints.min() != np.iinfo(np.int64).min:\n                arr = ints\n", name="P12 test mirrored")
+FCH = "GroupBy._factorize_group_key_in_chunks"
+add("P7b", "break", CORE, FCH, "self._result_index = pd.Index(np.concatenate(unique_list)).drop_duplicates()", "self._result_index = pd.Index(np.unique(np.concatenate(unique_list)))", name="P7b labels through np.unique (sorted) on the unsorted path")
+add("P7b", "break", CORE, FCH, "        arg_list = [(pd.Index(self.result_index), arr) for arr in unique_list]\n        self._group_key_pointers = parallel_map(get_indexer, arg_list)\n", "        arg_list = [(pd.Index(self.result_index), arr) for arr in unique_list[1:]]\n        self._group_key_pointers = [np.arange(len(unique_list[0])), *parallel_map(get_indexer, arg_list)]\n", name="P7b first pointer table assumed to be the identity")
+add("P7b", "keep", CORE, FCH, "self._result_index = pd.Index(np.concatenate(unique_list)).drop_duplicates()", "self._result_index = pd.Index(pd.unique(np.concatenate(unique_list)))", name="P7b pd.unique keeps first-appearance order")
+add("P7b", "keep", CORE, FCH, "        arg_list = [(pd.Index(self.result_index), arr) for arr in unique_list]\n        self._group_key_pointers = parallel_map(get_indexer, arg_list)\n", "        label_index = pd.Index(self.result_index)\n        self._group_key_pointers = [label_index.get_indexer(arr) for arr in unique_list]\n", name="P7b lookups in a comprehension")
+add("E3", "break", EMAS, "_ema_grouped_timed", "        if last_seen_times[k] > 0:\n", "        if masked and (not mask[i]):\n            out[i] = last_seen[k]\n            last_seen_times[k] = times[i]\n            continue\n        if last_seen_times[k] > 0:\n", name="E3 masked rows advance the clock without decaying the state")
